@@ -12,8 +12,9 @@ Record rq := mkRq {
   q_conn : string; q_fid : string;          (* connection, identity of the target fidRef *)
   q_node : list string;                     (* node the observed backend call acts on *)
   q_entry : option (list string);           (* UnlinkAt: node of the entry *)
-  q_probe : nat * nat * nat }.              (* TryLock probes from inside the call: renameMu, opMu of the node, opMu of the entry;
+  q_probe : nat * nat * nat;              (* TryLock probes from inside the call: renameMu, opMu of the node, opMu of the entry;
                                                0 free, 1 read-held, 2 write-held, 3 not determined *)
+  q_fidkey : string }.                      (* table name of the fidRef the request's own fid denotes ("fid:<T-message field>") *)
 
 (** one event of the backend monitor; ids, nodes (path#inode) and handles are numbered by the driver (binary N) *)
 Record ev := mkEv { e_enter : bool; e_id : N; e_m : string; e_node : N; e_entry : N; e_h : N }.
@@ -57,7 +58,7 @@ Definition inst (q : rq) (l : slock) : ck :=
   | SRename => KRen
   | SOp n => match npath q n with Some p => KOp p | None => KUnknown end
   | SChild n => match npath q n with Some p => KChildK p | None => KUnknown end
-  | SOpen r => if String.eqb (base_name r) "ref" then KOpenK (q_fid q) else KUnknown
+  | SOpen r => if String.eqb r (q_fidkey q) then KOpenK (q_fid q) else KUnknown
   | SFid _ => KFidK (q_conn q) | STag _ => KTagK (q_conn q) | SSend _ => KSendK (q_conn q) | SRecv _ => KRecvK (q_conn q)
   | SOther s => KOth s
   end.
